@@ -1,7 +1,7 @@
 #![allow(non_camel_case_types, non_snake_case, dead_code)]
 #[tarpc::service]
-pub trait Rej63 {
-    async fn Ab();
-    async fn ab(a0: i32, a1: String) -> i32;
+pub trait Rej74 {
+    async fn a_b_(a0: i32) -> i32;
+    async fn _a_b(a0: i32);
 }
 fn main() {}
